@@ -126,7 +126,7 @@ def _one(seed):
 
 def run(tier):
   ck = Check('C18', tier)
-  ck.prove('props/C18.v', gen_targets=[])
+  ck.prove('props/C18.v', gen_targets=['scenario'])
   n = common.sz(tier, 150, 2000)
   res = common.pmap(_one, [ck.seed * 100003 + 18 * 1009 + i for i in range(n)], chunksize=4)
   kinds, known = {}, {}
